@@ -29,6 +29,7 @@ type gpass struct {
 	// per-verification context
 	cur     *closureCtx
 	curWrap *wrapCtx
+	curArg  *ssa.Function
 }
 
 type closureCtx struct {
@@ -105,6 +106,9 @@ func (g *gpass) configure() {
 		x.NonNilResult = func(name string) bool { return strings.HasPrefix(name, "dynamic m") }
 	}
 	x.FuncLabel = func(fn *ssa.Function) string {
+		if g.curArg != nil {
+			return "role:modflow-arg"
+		}
 		if g.cur != nil {
 			return "role:" + g.cur.jc.role
 		}
@@ -134,7 +138,9 @@ func (g *gpass) configure() {
 		}
 	}
 	x.OnExit = func(s *vc.State, f *vc.Frame, kind string, results []vc.Value) {
-		if g.cur != nil {
+		if g.curArg != nil {
+			g.argExit(s, f, kind, results)
+		} else if g.cur != nil {
 			g.closureExit(s, f, kind, results)
 		} else if g.curWrap != nil {
 			g.wrapperExit(s, f, kind, results)
